@@ -170,6 +170,21 @@ _MORE2 = {
     'C15': ' Near-miss names (suffix, prefix, one character more or less, other case) are asked of every tree.',
     'C17': ' A nested-array table (declared lengths at two levels, literal indices at both levels, four syntactic forms: 576 cases) is enumerated completely.',
 }
+_MORE3 = {
+    'C01': ' The fusion family also glues a word to a following channel name that starts with `/`.',
+    'C04': ' The terminator may bind again the alias names of the pattern events (legal, and a later event reads through the name).',
+    'C05': ' A substitution sub-check makes the same clashes through replace_var_reference (a variable at every typed position of the table and at the predicate root, replaced by a term of a disjoint type): TypeError is required.',
+    'C07': ' A flat-repetition family writes one short unit 2-600 times behind an opener that may leave a string, annotation, bracket or pattern open (termination: per-call limit).',
+    'C10': ' Quantifiers are nested directly with the inner domain built on the outer variable.',
+    'C11': ' History steps also set a lower time bound (only the API can).',
+    'C12': ' Predicates include quantified spellings whose bound variable carries the name of an alias used elsewhere in the property.',
+    'C17': ' A quarter of the navigation schemas declare a constant under the name of a field.',
+    'C18': ' Unknown annotation keys are derived from the known ones (substrings, one character more, other case).',
+    'C19': ' A fifth of the inputs carry one character on which the notions of blank disagree (25 of them) at the end, the beginning or in place of a space.',
+}
+for _pid, _t in _MORE3.items():
+    EXTRA.setdefault(_pid, dict(level='', technique=''))
+    EXTRA[_pid]['level'] += _t
 for _pid, _t in _MORE2.items():
     EXTRA.setdefault(_pid, dict(level='', technique=''))
     EXTRA[_pid]['level'] += _t
